@@ -35,7 +35,7 @@ def bounds(tier):
         return {"n": [1, 2, 3, 4, 5], "envs": [1, 2], "gamma": [1.0, 0.5], "capacity": [3, 64],
                 "stream_len": {"E=1": "n+4", "E=2": 5}, "search": "BFS, closure where capacity=3; n in {4,5} with one environment only"}
     return {"n": [1, 2, 3, 4, 5], "envs": [1, 2, 3], "gamma": [1.0, 0.5, 0.99], "capacity": [3, 4, 64],
-            "stream_len": {"E=1": "n+6", "E=2": 6, "E=3": 4}, "search": "BFS, closure where capacity<=4"}
+            "stream_len": {"E=1": "n+6", "E=2": 6, "E=3": 4}, "search": "BFS, closure where capacity<=4; n=5 with one environment, n=4 with <=2 environments"}
 
 
 def tasks(tier, seed):
@@ -43,8 +43,8 @@ def tasks(tier, seed):
     out = []
     for n in b["n"]:
         for E in b["envs"]:
-            if tier == "quick" and n >= 4 and E > 1:
-                continue
+            if n >= 4 and E > 1 and (tier == "quick" or n >= 5 or E > 2):
+                continue  # long windows: one environment (thorough: n=4 also with two)
             for g in b["gamma"]:
                 for cap in b["capacity"]:
                     if tier == "quick":
